@@ -49,19 +49,19 @@ type Proc struct {
 
 // Task is a goroutine running real code.
 type Task struct {
-	ID      int
-	Label   string
-	Proc    *Proc
-	Gen     int
-	Done    bool
-	Normal  bool // returned normally (not killed, not panicked)
-	Panic   any
-	Calls   int // seam requests issued so far
-	OnDone  func(*Task)
-	Data    any
-	reaped  bool
-	goid    uint64
-	started bool
+	ID          int
+	Label       string
+	Proc        *Proc
+	Gen         int
+	Done        bool
+	Normal      bool // returned normally (not killed, not panicked)
+	Panic       any
+	Calls       int // seam requests issued so far
+	OnDone      func(*Task)
+	Data        any
+	reaped      bool
+	goid        uint64
+	started     bool
 	lastFaulted bool
 	// FaultSteps lists the scheduler steps at which a fault was delivered to this task.
 	FaultSteps []int
@@ -94,7 +94,7 @@ type Action struct {
 
 // FaultCfg is drawn per run.
 type FaultCfg struct {
-	Permille int             // probability of a fault per faultable request, chaos phase
+	Permille int              // probability of a fault per faultable request, chaos phase
 	Kinds    map[Outcome]bool // enabled kinds
 	// Single-shot mode: exactly one fault, at the SingleAt-th faultable request
 	// of the chaos phase (when SingleAt >= 0).
@@ -115,11 +115,11 @@ type Sim struct {
 	Cfg   FaultCfg
 	Phase string // setup | chaos | heal | probe
 
-	mu      sync.Mutex
-	pending []*Request
-	byGoid  map[uint64]*Task
-	tasks   []*Task
-	nextTID int
+	mu       sync.Mutex
+	pending  []*Request
+	byGoid   map[uint64]*Task
+	tasks    []*Task
+	nextTID  int
 	lastTask *Task
 
 	Step       int
@@ -131,7 +131,10 @@ type Sim struct {
 
 	trace     []string
 	traceHash [32]byte
-	hasher    interface{ Write([]byte) (int, error); Sum([]byte) []byte }
+	hasher    interface {
+		Write([]byte) (int, error)
+		Sum([]byte) []byte
+	}
 	KeepTrace int
 
 	Violations []*Violation
